@@ -67,10 +67,12 @@ def plant(rng):
                        'define-syntax', 'dup-attr', 'content+replace', 'end-tag', 'reserved', 'reserved-tuple', 'case-no-switch',
                        'bad-interpolation', 'name-outside', 'comment--', 'fill-no-use', 'entity-before', 'newline-in-expr',
                        'unknown-tal', 'unknown-prefix', 'repeat-two', 'switch+case', 'undeclared-ns',
-                       'define-n', 'define-n', 'attributes-n', 'attributes-n', 'i18n-attributes-n'])
+                       'define-n', 'define-n', 'attributes-n', 'attributes-n', 'i18n-attributes-n',
+                       'unknown-data', 'unknown-data', 'data-content-bad'])
     el = None
     exp = None
     finding = None
+    cfg = {}
     nontrivial = bool(pre)
     good = '1'
 
@@ -240,6 +242,21 @@ def plant(rng):
         base = '<p tal:content="1 +\n  1">x</p>'
         exp = ('ExpressionError', '1 +', len(pre) + el.index('1 +'))
         nontrivial = True
+    elif kind == 'unknown-data':
+        # the data-<prefix>-<name> spelling of an unknown statement (enable_data_attributes): the token is the statement's name
+        pfx = rng.choice(['tal', 'metal', 'i18n'])
+        other = rng.choice(['', ' data-id="7"', ' class="c"'])
+        el = '<p%s data-%s-foo="1">x</p>' % (other, pfx)
+        base = '<p%s>x</p>' % other
+        exp = ('CompilationError', 'foo', len(pre) + el.index('-foo') + 1)
+        cfg = {'enable_data_attributes': True}
+        nontrivial = True
+    elif kind == 'data-content-bad':
+        el = '<p data-id="7" data-tal-content="%s">x</p>' % bad
+        base = '<p data-id="7" data-tal-content="1">x</p>'
+        exp = ('ExpressionError', bad, len(pre) + at(el, bad))
+        cfg = {'enable_data_attributes': True}
+        nontrivial = True
     elif kind == 'unknown-tal':
         el = '<p tal:foo="1">x</p>'
         base = '<p>x</p>'
@@ -271,7 +288,7 @@ def plant(rng):
     if m:
         oracle.append([bad, m])
     oracle.append(['1 +', syntax_msg('1 +')])
-    case = {'src': src, 'vars': [['nope2', 1]], 'objs': [], 'pyoracle': oracle}
+    case = {'src': src, 'vars': [['nope2', 1]], 'objs': [], 'pyoracle': oracle, 'cfg': cfg}
     return case, exp, finding, nontrivial or kind in ('define2', 'attributes2'), base_src, kind
 
 
@@ -288,7 +305,7 @@ def correspondence(ctx):
 def oracle(ctx):
     cases = [plant(ctx.rng) for _ in range(ctx.budget(3000, 100000))]
     impls = pipeline.impl_many([c[0] for c in cases])
-    bases = pipeline.impl_many([{'src': c[4], 'vars': [['nope2', 1]], 'objs': []} for c in cases])
+    bases = pipeline.impl_many([{'src': c[4], 'vars': [['nope2', 1]], 'objs': [], 'cfg': c[0].get('cfg', {})} for c in cases])
     nt = set()
     hist = {}
     for (case, exp, finding, nontrivial, base_src, kind), impl, base in zip(cases, impls, bases):
@@ -312,7 +329,7 @@ def oracle(ctx):
             if (impl.get('line'), impl.get('col')) != (line, col) and not problems:
                 problems.append('line/column do not match the offset')
         if problems:
-            ctx.violation('; '.join(problems), {'src': src, 'kind': kind}, expected={'cls': exp[0], 'token': exp[1], 'offset': exp[2]} if exp else None,
+            ctx.violation('; '.join(problems), {'src': src, 'kind': kind, 'cfg': case.get('cfg', {})}, expected={'cls': exp[0], 'token': exp[1], 'offset': exp[2]} if exp else None,
                           actual={k: impl.get(k) for k in ('exc', 'cls', 'msg', 'token', 'offset', 'line', 'col')}, finding=finding)
         # a template without such an error is never rejected
         if base.get('exc') in ('TemplateError', 'other'):
@@ -347,5 +364,5 @@ def reproduce_finding(ctx, f):
 def replay(ctx, case):
     v = case.get('violation', case)
     c = v['input']
-    impl = pipeline.run_impl({'src': c['src'], 'vars': [['nope2', 1]]})
+    impl = pipeline.run_impl({'src': c['src'], 'vars': [['nope2', 1]], 'cfg': c.get('cfg', {})})
     return {'impl': impl, 'expected': v.get('expected')}
